@@ -408,7 +408,7 @@ def r57_dependency_contract(facts, families=("ewise", "matmul", "conv", "reduce"
                 a_ = _operand(1, x, False)
                 total = _prod(x)
                 probes = [(i, i) for i in range(total)] + [(total, None), (total + 1, None), (2 * total, None)] if flat else \
-                         [(list(_unravel(i, x)), i) for i in range(total)]
+                         [(list(_unravel(i, x)), i) for i in range(total)] + ([([x[0]] + [0] * (len(x) - 1), None), ([x[0] + 1] + [0] * (len(x) - 1), None)] if x[0] > 1 else [])
                 for idx, want in probes:
                     out = SV.run(facts, b, [a_, idx if flat else list(idx)], prov=True)
                     if out[0] == "unknown":
@@ -417,7 +417,7 @@ def r57_dependency_contract(facts, families=("ewise", "matmul", "conv", "reduce"
                     if bad:
                         continue
                     if want is None and out[0] != "panic":
-                        bad = "the flat index %s of an array of dimensions %s (%d elements) is accepted instead of refused" % (idx, x, total)
+                        bad = "the %s %s of an array of dimensions %s (%d elements) is accepted instead of refused" % ("flat index" if flat else "multi-index (first dimension exceeded: the row-major position is past the end)", idx, x, total)
                     elif want is not None and out[0] == "panic":
                         bad = "the index %s of an array of dimensions %s is refused" % (idx, x)
                     elif want is not None and not (isinstance(out[1], SV.PF) and out[1].s == frozenset({(1, want)})):
